@@ -199,6 +199,10 @@ pub fn def(ctx: &Ctx) -> PropDef {
             check_jit,
         ));
     }
+    // timer_stats on boundary pairs of readings (every power of two, +-1, negated, wrap-around)
+    subs.push(PSub::boxed("jitter/timer_stats-pairs", t.pick(20_000, 2_000_000), crate::props::c12::stats_strategy, |c: &crate::props::c12::StatsCase| {
+        crate::props::c12::check_stats(c).map(|i| CaseInfo::new(true).class(i.classes.first().cloned().unwrap_or_default()))
+    }));
     // test_timer on the constructive timers of C13, including timers whose deltas sit at +-2^31
     subs.push(PSub::boxed(
         "jitter/test_timer-hostile",
